@@ -139,7 +139,8 @@ pub fn c11_program(ctx: &Ctx, out: &mut RunOut) -> Result<(), Violation> {
         ctx.count_n(k, 0); // registered so that a probe that never fires shows up as zero in the evidence
     }
     let pd = pagegen::gen_page_doc(ctx);
-    let from_file = ctx.chance(W, 1, 3, "start-from-file");
+    let start_mode = ctx.draw(W, 4, "start-mode"); // 0,1 generated value; 2 saved by lopdf and loaded; 3 written by the reference producer and loaded
+    let from_file = start_mode == 2;
     let mut w = World { d: sim::to_doc(&pd.doc), exp_ops: pd.expected_ops.clone(), allocated: vec![], pages: pd.pages.clone(), annotations: pd.annotations.clone(), protected: BTreeSet::new(), resource_objs: BTreeSet::new() };
     if from_file {
         // start from a loaded file instead of a generated value
@@ -147,6 +148,17 @@ pub fn c11_program(ctx: &Ctx, out: &mut RunOut) -> Result<(), Violation> {
         guarded("save_to", || w.d.save_to(&mut img))?.map_err(|e| Violation::new("healthy-save-failed", format!("initial save: {e}")))?;
         w.d = guarded("load_mem", || sim::load_mem(&img))?.map_err(|e| Violation::new("load-failed", format!("initial load: {e}")))?;
         ctx.count("start-from-loaded-file");
+    }
+    if start_mode == 3 {
+        // a foreign file: object streams, cross-reference streams, indirect lengths, any syntax
+        use pdfmodel::refwriter::{self, Revision};
+        let revs = vec![Revision { objects: pd.doc.objects.clone(), trailer: pdfmodel::trailer_payload(&pd.doc.trailer) }];
+        let mut opts = refwriter::draw_opts(ctx, 1, "1.6", &[0xE2, 0xE3, 0xCF, 0xD3]);
+        opts.raw_cr_eol = false;
+        opts.leading_junk = false;
+        let wr = refwriter::write_history(ctx, &revs, &opts);
+        w.d = guarded("load_mem", || sim::load_mem(&wr.bytes))?.map_err(|e| Violation::new("load-failed", format!("initial load of a reference-writer file: {e}")))?;
+        ctx.count("start-from-foreign-file");
     }
     // sanity of the starting point (harness self-check, not a property)
     {
@@ -528,7 +540,7 @@ pub fn c11_program(ctx: &Ctx, out: &mut RunOut) -> Result<(), Violation> {
                     ctx.count("save-accepted");
                     let img = sink.accepted;
                     let mut model = before.clone();
-                    model.objects.retain(|_, o| !pdfmodel::is_xref_stream_obj(o));
+                    model.objects.retain(|_, o| !pdfmodel::is_xref_stream_obj(o) && !pdfmodel::is_objstm_obj(o));
                     crate::c03::check_image(ctx, &img, &model, None)?;
                     last_image = Some((img, model, w.exp_ops.clone(), w.pages.clone(), w.annotations.clone()));
                 }
@@ -562,7 +574,7 @@ pub fn c11_program(ctx: &Ctx, out: &mut RunOut) -> Result<(), Violation> {
         let mut img = Vec::new();
         guarded("final save_to", || w.d.save_to(&mut img))?.map_err(|e| Violation::new("healthy-save-failed", format!("final save: {e}")))?;
         let mut model = before.clone();
-        model.objects.retain(|_, o| !pdfmodel::is_xref_stream_obj(o));
+        model.objects.retain(|_, o| !pdfmodel::is_xref_stream_obj(o) && !pdfmodel::is_objstm_obj(o));
         crate::c03::check_image(ctx, &img, &model, None)?;
         let d2 = guarded("load_mem", || sim::load_mem(&img))?.map_err(|e| Violation::new("load-failed", format!("final image does not load: {e}")))?;
         pdfmodel::same_doc(&model, &snap(&d2), &|_, o| pdfmodel::is_xref_stream_obj(o)).map_err(|(c, e)| Violation::new(c, format!("final reload: {e}")))?;
